@@ -80,6 +80,9 @@ def run_kit(kit, tier, seed_, budget, ukey=None, freeze=False, workers=common.NC
     log(f"[{kit.name}] trace validation: {len(allrecs)} records, {len(bad)} with verdicts ({t():.0f}s)")
     info["histories"] = budget["histories"]
     info["history_calls"] = len(hrecs)
+    if info.get("unrealised_states") and not any(r in bad for r in info["traced_build_rids"]):
+        raise MachineryError(f"S->C builder could not realise {info['unrealised_states']} states although every one of its "
+                             f"calls is admitted by the specification, e.g. {info['builderr_example']}")
     return mc, allrecs, bad, info
 
 
